@@ -176,6 +176,8 @@ def render_body(body, ind, explicit, out):
             for c in ins.cases:
                 if c.default:
                     head = '<case default="true">'
+                elif c.value is None:
+                    head = "<case>"
                 else:
                     head = "<case value=%s%s>" % (quoteattr(str(c.value)), ' default="false"' if explicit else "")
                 out.append(ind + "  " + head)
